@@ -16,7 +16,7 @@ Definition ann_jitrestrict (l : nat) : annot :=
   | 1%nat => ALoop [("k", KInt); ("t", KInt); ("x", KInt); ("ix", KArr)]
                    (fun st0 st => 0 <= getZ st "k" /\ 0 <= getZ st "x" <= getZ st "t")
   | 2%nat => ALoop [("t", KInt)] (fun st0 st => getZ st0 "t" <= getZ st "t")
-  | 3%nat => ALoop [("k", KInt); ("t", KInt); ("x", KInt); ("ix", KArr)]
+  | 4%nat => ALoop [("k", KInt); ("t", KInt); ("x", KInt); ("ix", KArr)]
                    (fun st0 st => getZ st "k" = getZ st0 "k" /\ 0 <= getZ st "x" <= getZ st "t")
   | _ => ANone
   end.
